@@ -29,6 +29,7 @@ SIG = {
     -5: 'C14:malformed:frame-not-from-block-or-more-than-16',
     -6: 'C14:deep-stack:frames-elided:error',
     -7: 'C14:path-contains-pc=:name-changes',
+    -8: 'C14:repeated-sentinel:name-changes',
 }
 TEXT = {
     -1: 'the counter name is longer than the 4096-byte limit',
@@ -37,6 +38,7 @@ TEXT = {
     -4: 'a report in the genuine traceback format does not give the name CrashParse!Expected demands',
     -5: 'a malformed report gives a name with a frame that is no PC of the first running goroutine (or more than 16)',
     -7: 'two renderings of one report that differ only in " pc=" inside a file path give different names (F17)',
+    -8: 'a later line "sentinel <hex>" (message text, not the parent\'s first line) changes the result: the report read with that line as ordinary text is in the genuine format, but the outcome is neither its name nor an error',
     -6: 'a genuine traceback of a stack deeper than 100 frames ("...N frames elided...") is refused with an error instead of naming its top 16 frames',
 }
 
@@ -111,11 +113,11 @@ def run(ctx):
     if ctx.thorough():
         runs += [('seq-hdr', 'PrefixHdr', 6, None), ('seq-trap', 'PrefixTrap', 8, None), ('seq-empty', 'PrefixEmpty', 4, None)]
     else:
-        runs += [('seq-hdr', 'PrefixHdr', 5, None), ('seq-empty', 'PrefixEmpty', 3, None)]
+        runs += [('seq-hdr', 'PrefixHdr', 5, None), ('seq-empty', 'PrefixEmpty', 2, None)]
     vectors = []
     seen = set()
     for (label, prefixes, maxlen, vw) in runs:
-        cfg = ('SPECIFICATION Spec\nINVARIANTS Agree CapOK EraseOK OnlyContribution TrapRule\nPROPERTIES PostStable\n'
+        cfg = ('SPECIFICATION Spec\nINVARIANTS Agree RepIgnored CapOK EraseOK OnlyContribution TrapRule\nPROPERTIES PostStable\n'
                'CHECK_DEADLOCK FALSE\n%sCONSTANTS\n MaxLen = %d\n Prefixes <- %s\n' % ('VIEW %s\n' % vw if vw else '', maxlen, prefixes))
         r = ctx.tlc('CrashParseMC', cfg_text=cfg, dump=True, label='CrashParseMC-' + label, timeout=2400)
         if not r.ok:
@@ -151,7 +153,7 @@ def run(ctx):
     _report(ctx, bad, 'TestVerifC14Vec', inp)
 
     # ---- 3. genuine crashes, mutations, random bytes --------------------------
-    inp = {'mutations': ctx.pick(2500, 40000), 'bytes': ctx.pick(1500, 20000)}
+    inp = {'mutations': ctx.pick(2000, 40000), 'bytes': ctx.pick(1000, 20000)}
     recs, rc, out = ctx.run_harness('./internal/verifh/c14', 'TestVerifC14Real', inp=inp, timeout=2400)
     summ = [x for x in recs if x.get('kind') == 'summary']
     if not summ or not summ[0].get('genuine'):
